@@ -106,7 +106,7 @@ def run(ctx):
     cfg = ctx.config
     if cfg != 'P':
         ctx.check('CODEC', 'stored records decode to what was encoded (size / encode / decode agreement of Snapshot, PriorEpoch and everything inside)',
-                  stored_codec, floor=50)
+                  stored_codec, floor={'A': 70, 'B': 45, 'C': 70, 'D': 70}.get(cfg, 45))
     if cfg == 'P':
         S = 'SqLiteGroupStateStorage::update_group_state'
 
